@@ -195,7 +195,7 @@ fn is_representable(x: &Q, fmt: Fmt) -> bool {
 struct EncBugs {
     /// the bit two places below the last kept bit is left out of the sticky bit
     drop_bit: bool,
-    /// values with top bit position == qmin (i.e. in [2^(qmin-1), 2^qmin)) are flushed to zero
+    /// f32 only: values with top bit position == qmin (i.e. in [2^-150, 2^-149)) are flushed to zero
     flush_binade: bool,
 }
 
@@ -209,7 +209,8 @@ fn encode_model(mag: u128, e: i64, fmt: Fmt, bugs: EncBugs) -> (u64, Ordering) {
     if top > fmt.emax {
         return (fmt.inf_bits(), Ordering::Greater);
     }
-    if top < fmt.qmin || (bugs.flush_binade && top == fmt.qmin) {
+    // (the f64 threshold `top_bit < -1022 - 52` is right; the f32 one, `-125 - 23`, is one binade too high)
+    if top < fmt.qmin || (bugs.flush_binade && fmt == F32 && top == fmt.qmin) {
         return (0, Ordering::Less);
     }
     let k = (l - fmt.p).max(fmt.qmin - e);
@@ -676,41 +677,42 @@ fn int_case() -> impl Strategy<Value = IntCase> {
     })
 }
 
-/// C06/int-to-f64-u128max-exact: `to_f64_small` casts back with a saturating `as u128`, so the
-/// only double-word value that rounds up to 2^128 compares equal to itself.
-fn int_flag_wrong(out: &mut Out, ctx: &Ctx, what: &str, c: &IntCase, o: &Obs, x: &Q) {
-    let u128max = c.v.mag.big() == (BigUint::one() << 128usize) - BigUint::one();
-    if o.fmt == F64 && u128max && o.flag.is_none() {
-        ctx.known_or_fail(out, "C06/int-to-f64-u128max-exact", || describe(what, o, x));
-    } else {
-        out.fail(format!("flag wrong: {}", describe(what, o, x)));
-    }
-}
-
-/// C06/encode-sticky-bit-dropped reached through `to_f64_nontrivial` (63 top bits + sticky into
-/// `f64::encode`): the observed value is what the model with the dropped bit predicts.
-fn int_value_wrong(out: &mut Out, ctx: &Ctx, what: &str, c: &IntCase, o: &Obs, x: &Q) {
+/// Attribution of a wrong UBig/IBig::to_f32/to_f64 result.
+/// * C06/int-to-f64-u128max-exact: `to_f64_small` casts back with a saturating `as u128`, so the
+///   only double-word value that rounds up to 2^128 compares equal to itself.
+/// * C06/encode-sticky-bit-dropped reached through `to_f64_nontrivial` (63 top bits | sticky into
+///   `f64::encode`): value and flag are what the model with the dropped bit predicts.
+fn int_wrong(out: &mut Out, ctx: &Ctx, what: &str, c: &IntCase, o: &Obs, x: &Q) {
+    let value_ok = value_matches(o, x);
+    let detail = || format!("{} wrong: {}", if value_ok { "flag" } else { "value" }, describe(what, o, x));
     let mag = c.v.mag.big();
     let n = mag.bits() as i64;
-    if o.fmt == F64 && n > 128 && n <= 1024 {
+    let u128max = mag == (BigUint::one() << 128usize) - BigUint::one();
+    if o.fmt == F64 && u128max && value_ok && o.flag.is_none() {
+        return ctx.known_or_fail(out, "C06/int-to-f64-u128max-exact", detail);
+    }
+    if o.fmt == F64 && n > 128 && n <= 1024 && ulps_off(o, x) <= 1 {
         let top63 = (&mag >> (n - 63) as usize).to_u128().unwrap();
         let low = !(&mag & ((BigUint::one() << (n - 63) as usize) - BigUint::one())).is_zero();
-        let (mb, _) = encode_model(top63 | low as u128, n - 63, F64, EncBugs { drop_bit: true, flush_binade: false });
-        if mb == (o.bits & (F64.sign_mask() - 1)) && ulps_off(o, x) == 1 {
-            return ctx.known_or_fail(out, "C06/encode-sticky-bit-dropped", || describe(what, o, x));
+        let (mb, mo) = encode_model(top63 | low as u128, n - 63, F64, EncBugs { drop_bit: true, flush_binade: false });
+        let flag = match mo {
+            Ordering::Equal => None,
+            Ordering::Greater => Some(!c.v.neg),
+            Ordering::Less => Some(c.v.neg),
+        };
+        if mb == (o.bits & (F64.sign_mask() - 1)) && flag == o.flag {
+            return ctx.known_or_fail(out, "C06/encode-sticky-bit-dropped", detail);
         }
     }
-    out.fail(format!("value wrong: {}", describe(what, o, x)));
+    out.fail(detail());
 }
 
 fn judge_int(out: &mut Out, ctx: &Ctx, what: &str, c: &IntCase, r: Result<Obs, String>, x: &Q) {
     match r {
         Err(m) => out.fail(format!("{what} panicked: {}", normalise(&m))),
         Ok(o) => {
-            if !value_matches(&o, x) {
-                int_value_wrong(out, ctx, what, c, &o, x);
-            } else if !flag_matches(&o, x) {
-                int_flag_wrong(out, ctx, what, c, &o, x);
+            if !value_matches(&o, x) || !flag_matches(&o, x) {
+                int_wrong(out, ctx, what, c, &o, x);
             }
             if o.flag.is_some() {
                 out.nontrivial(true);
@@ -789,9 +791,10 @@ fn int_to_float(c: &IntCase, ctx: &Ctx) -> Out {
 /// What `Repr::to_f32/to_f64` in rational/src/convert.rs computes, with a *correct* encode unless
 /// `bugs` says otherwise: quotient rounded to an integer of p or p+1 bits, then encoded (second
 /// rounding).  Returns (magnitude bits, error of the magnitude: None exact / Some(true) too large).
-fn rbig_two_step_model(x: &Q, fmt: Fmt, bugs: EncBugs) -> (u64, Option<bool>) {
+fn rbig_two_step_model(x: &Q, stored: &(u64, u64), fmt: Fmt, bugs: EncBugs) -> (u64, Option<bool>) {
     let a = x.abs();
-    let shift = a.numer().bits() as i64 - a.denom().bits() as i64 - fmt.p;
+    // bit lengths of the stored (Relaxed: possibly unreduced) numerator and denominator
+    let shift = stored.0 as i64 - stored.1 as i64 - fmt.p;
     if shift >= fmt.emax {
         return (fmt.inf_bits(), Some(true));
     }
@@ -815,7 +818,7 @@ fn rbig_two_step_model(x: &Q, fmt: Fmt, bugs: EncBugs) -> (u64, Option<bool>) {
     (mb, flag)
 }
 
-fn rat_wrong(out: &mut Out, ctx: &Ctx, what: &str, o: &Obs, x: &Q) {
+fn rat_wrong(out: &mut Out, ctx: &Ctx, what: &str, o: &Obs, x: &Q, stored: &(u64, u64)) {
     let got = o.bits & (o.fmt.sign_mask() - 1);
     let neg = x.is_negative();
     let sign_ok = neg == o.fmt.neg(o.bits) || got == 0;
@@ -824,7 +827,7 @@ fn rat_wrong(out: &mut Out, ctx: &Ctx, what: &str, o: &Obs, x: &Q) {
     let detail = || format!("{} wrong ({off} ulp): {}", if value_ok { "flag" } else { "value" }, describe(what, o, x));
     if sign_ok && off <= 1 && !o.fmt.is_nan(o.bits) {
         let m = |b: EncBugs| {
-            let (mb, mf) = rbig_two_step_model(x, o.fmt, b);
+            let (mb, mf) = rbig_two_step_model(x, stored, o.fmt, b);
             mb == got && mf.map(|up| up != neg) == o.flag
         };
         if m(EncBugs::default()) {
@@ -842,12 +845,12 @@ fn rat_wrong(out: &mut Out, ctx: &Ctx, what: &str, o: &Obs, x: &Q) {
     out.fail(detail());
 }
 
-fn judge_rat(out: &mut Out, ctx: &Ctx, what: &str, r: Result<Obs, String>, x: &Q) {
+fn judge_rat(out: &mut Out, ctx: &Ctx, what: &str, r: Result<Obs, String>, x: &Q, stored: &(u64, u64)) {
     match r {
         Err(m) => rat_panic(out, ctx, what, &m, x),
         Ok(o) => {
             if !value_matches(&o, x) || !flag_matches(&o, x) {
-                rat_wrong(out, ctx, what, &o, x);
+                rat_wrong(out, ctx, what, &o, x, stored);
             }
             if o.flag.is_some() {
                 out.nontrivial(true);
@@ -860,8 +863,34 @@ fn rat_panic(out: &mut Out, _ctx: &Ctx, what: &str, m: &str, x: &Q) {
     out.fail(format!("{what} panicked: {} (x = {})", normalise(m), show_q(x)));
 }
 
+/// What `Repr::to_f32_fast/to_f64_fast` compute: numerator truncated (or extended) to 2p bits,
+/// denominator to p bits, integer quotient rounded to nearest-even, then encode.
+fn fast_model(stored: &(BigUint, BigUint), fmt: Fmt) -> u64 {
+    let (n, d) = stored;
+    if n.is_zero() {
+        return 0;
+    }
+    let sh = |v: &BigUint, k: i64| if k >= 0 { v >> k as usize } else { v << (-k) as usize };
+    let ns = n.bits() as i64 - 2 * fmt.p;
+    let ds = d.bits() as i64 - fmt.p;
+    let (num, den) = (sh(n, ns), sh(d, ds));
+    let exponent = ns - ds;
+    if exponent >= fmt.emax {
+        return fmt.inf_bits();
+    }
+    if exponent < fmt.qmin - fmt.p - 1 {
+        return 0;
+    }
+    let (mut man, r) = num.div_rem(&den);
+    let half = (&r << 1usize).cmp(&den);
+    if half == Ordering::Greater || (half == Ordering::Equal && man.bit(0)) {
+        man += BigUint::one();
+    }
+    encode_model(man.to_u128().unwrap(), exponent, fmt, EncBugs::default()).0
+}
+
 /// `to_f32_fast`/`to_f64_fast`: "in rare cases the mantissa can be off by one bit"
-fn judge_fast(out: &mut Out, _ctx: &Ctx, what: &str, fmt: Fmt, r: Result<u64, String>, x: &Q) {
+fn judge_fast(out: &mut Out, ctx: &Ctx, what: &str, fmt: Fmt, r: Result<u64, String>, x: &Q, stored: &(BigUint, BigUint)) {
     match r {
         Err(m) => out.fail(format!("{what} panicked: {} (x = {})", normalise(&m), show_q(x))),
         Ok(bits) => {
@@ -876,7 +905,15 @@ fn judge_fast(out: &mut Out, _ctx: &Ctx, what: &str, fmt: Fmt, r: Result<u64, St
                 _ => "fast:more than one ulp off",
             });
             if off > 1 {
-                out.fail(format!("more than the documented one bit off ({off} ulp): {}", describe(what, &o, x)));
+                let detail = || format!("more than the documented one bit off ({off} ulp): {}", describe(what, &o, x));
+                // C06/to-float-fast-beyond-one-bit: truncating the denominator to p bits alone costs up
+                // to two units of the quotient
+                let truncated = stored.1.bits() as i64 > fmt.p;
+                if off <= 3 && truncated && fast_model(stored, fmt) == (bits & (fmt.sign_mask() - 1)) && (bits & (fmt.sign_mask() - 1) == 0 || fmt.neg(bits) == x.is_negative()) {
+                    ctx.known_or_fail(out, "C06/to-float-fast-beyond-one-bit", detail);
+                } else {
+                    out.fail(detail());
+                }
             }
         }
     }
@@ -909,14 +946,18 @@ fn rational_to_float(c: &RatCase, ctx: &Ctx) -> Out {
     out.label(range_label(&x, F32));
     out.label(range_label(&x, F64));
     out.label(tie_label(&x, F64));
-    judge_rat(&mut out, ctx, "RBig::to_f32", catch(|| obs32(r.to_f32())), &x);
-    judge_rat(&mut out, ctx, "RBig::to_f64", catch(|| obs64(r.to_f64())), &x);
-    judge_rat(&mut out, ctx, "Relaxed::to_f32", catch(|| obs32(l.to_f32())), &x);
-    judge_rat(&mut out, ctx, "Relaxed::to_f64", catch(|| obs64(l.to_f64())), &x);
-    judge_fast(&mut out, ctx, "RBig::to_f32_fast", F32, catch(|| r.to_f32_fast().to_bits() as u64), &x);
-    judge_fast(&mut out, ctx, "RBig::to_f64_fast", F64, catch(|| r.to_f64_fast().to_bits()), &x);
-    judge_fast(&mut out, ctx, "Relaxed::to_f32_fast", F32, catch(|| l.to_f32_fast().to_bits() as u64), &x);
-    judge_fast(&mut out, ctx, "Relaxed::to_f64_fast", F64, catch(|| l.to_f64_fast().to_bits()), &x);
+    let sr = (u2n(&r.numerator().clone().into_parts().1).bits(), u2n(r.denominator()).bits());
+    let sl = (u2n(&l.numerator().clone().into_parts().1).bits(), u2n(l.denominator()).bits());
+    judge_rat(&mut out, ctx, "RBig::to_f32", catch(|| obs32(r.to_f32())), &x, &sr);
+    judge_rat(&mut out, ctx, "RBig::to_f64", catch(|| obs64(r.to_f64())), &x, &sr);
+    judge_rat(&mut out, ctx, "Relaxed::to_f32", catch(|| obs32(l.to_f32())), &x, &sl);
+    judge_rat(&mut out, ctx, "Relaxed::to_f64", catch(|| obs64(l.to_f64())), &x, &sl);
+    let pr = (u2n(&r.numerator().clone().into_parts().1), u2n(r.denominator()));
+    let pl = (u2n(&l.numerator().clone().into_parts().1), u2n(l.denominator()));
+    judge_fast(&mut out, ctx, "RBig::to_f32_fast", F32, catch(|| r.to_f32_fast().to_bits() as u64), &x, &pr);
+    judge_fast(&mut out, ctx, "RBig::to_f64_fast", F64, catch(|| r.to_f64_fast().to_bits()), &x, &pr);
+    judge_fast(&mut out, ctx, "Relaxed::to_f32_fast", F32, catch(|| l.to_f32_fast().to_bits() as u64), &x, &pl);
+    judge_fast(&mut out, ctx, "Relaxed::to_f64_fast", F64, catch(|| l.to_f64_fast().to_bits()), &x, &pl);
     try_float_from_rat(&mut out, ctx, "f32::try_from(RBig)", F32, catch(|| f32::try_from(r.clone()).map(|f| f.to_bits() as u64)), &x);
     try_float_from_rat(&mut out, ctx, "f64::try_from(RBig)", F64, catch(|| f64::try_from(r.clone()).map(|f| f.to_bits())), &x);
     try_float_from_rat(&mut out, ctx, "f32::try_from(Relaxed)", F32, catch(|| f32::try_from(l.clone()).map(|f| f.to_bits() as u64)), &x);
@@ -937,6 +978,15 @@ fn try_float_from_rat(out: &mut Out, ctx: &Ctx, what: &str, fmt: Fmt, r: Result<
         if nm.contains("called `Result::unwrap()` on an `Err` value: OutOfBounds") && nm.contains("rational/src/convert.rs") && dyadic && x.numer().magnitude().bits() > lim && top <= fmt.emax && top >= fmt.qmin {
             return ctx.known_or_fail(out, "C06/float-from-rbig-numerator-unwrap", || format!("{what} panicked: {nm} (x = {})", show_q(x)));
         }
+        // the numerator fits and goes to encode(numerator, -log2(denominator))
+        if dyadic && x.numer().magnitude().bits() <= lim + 1 {
+            if let Some(id) = encode_panic_id(fmt, x.numer().magnitude().to_u128().unwrap(), -(x.denom().magnitude().bits() as i64 - 1), &nm) {
+                return ctx.known_or_fail(out, id, || format!("{what} panicked: {nm} (x = {})", show_q(x)));
+            }
+        }
+    }
+    if accepted_through_encode(out, ctx, what, fmt, &r, x, x) {
+        return;
     }
     judge_try_float(out, what, fmt, r, x, true);
 }
@@ -1125,11 +1175,19 @@ fn fbig_wrong(out: &mut Out, ctx: &Ctx, site: &FbigSite, o: &ObsR, x: &Q) {
     let below_normal = correct_first.0.magnitude().bits() as i64 + correct_first.1 <= fmt.qmin + fmt.p - 1;
     let mut firsts = vec![(correct_first.clone(), true)];
     if large_path {
-        for md in [Mode::Down, Mode::Up] {
-            let f = round_to_bits(x, fmt.p, md);
-            if f != correct_first {
-                firsts.push((f, false));
-            }
+        // the p-bit result of the approximation: the correctly rounded value or an adjacent one
+        let (mut n, mut q) = correct_first.clone();
+        if n.magnitude().bits() as i64 > fmt.p {
+            n /= 2; // rounding carried into the next binade: n = ±2^p
+            q += 1;
+        }
+        let sgn = if n.is_negative() { -1 } else { 1 };
+        firsts.push(((&n + BigInt::from(sgn), q), false));
+        if n.magnitude().is_one() || n.magnitude().bits() as i64 == fmt.p && n.magnitude().count_ones() == 1 {
+            // lower neighbour of a power of two lies in the binade below
+            firsts.push(((&n * 2 - BigInt::from(sgn), q - 1), false));
+        } else {
+            firsts.push(((&n - BigInt::from(sgn), q), false));
         }
     }
     if sign_ok {
@@ -1192,12 +1250,30 @@ fn fbig_panic(out: &mut Out, ctx: &Ctx, site: &FbigSite, m: &str, sig: &BigInt, 
             return ctx.known_or_fail(out, "C06/convert-base-small-exp-unrounded", detail);
         }
     } else if !pow2_base(site.base) && (-38..0).contains(&e) {
-        // C06/convert-base-div-wide-significand: -38 <= exponent < 0 calls repr_div(significand, B^-exponent)
-        // whose precondition lhs.digits() <= precision + rhs.digits() the caller does not establish
-        let lhs_digits = digits(sig.magnitude(), 2);
-        let rhs_digits = bpow(site.base, (-e) as u64).bits();
-        if nm.contains("assertion failed: lhs.digits() <= self.precision + rhs.digits()") && nm.contains("float/src/div.rs") && lhs_digits as i64 > p + rhs_digits as i64 {
+        // -38 <= exponent < 0 calls repr_div(significand, B^-exponent) in base 2 at precision p
+        let odd = |n: &BigUint| if n.is_zero() { n.clone() } else { n >> n.trailing_zeros().unwrap() as usize };
+        let n = odd(sig.magnitude());
+        let d = odd(&bpow(site.base, (-e) as u64));
+        let (nb, db) = (n.bits() as i64, d.bits() as i64);
+        if nm.contains("assertion failed: lhs.digits() <= self.precision + rhs.digits()") && nm.contains("float/src/div.rs") && nb > p + db {
+            // C06/convert-base-div-wide-significand: repr_div's precondition
+            // lhs.digits() <= precision + rhs.digits() is not established by the caller
             return ctx.known_or_fail(out, "C06/convert-base-div-wide-significand", detail);
+        }
+        // C06/fbig-to-float-quotient-extra-bit: repr_div returns a quotient of p+1 bits — in its
+        // "quotient is zero" branch (numerator shifted to bits(d) + p bits) and when the numerator
+        // has exactly p + bits(d) bits —; into_f32/f64_internal assumes <= p (debug assertion;
+        // without it `encode` rounds a second time)
+        let q0 = &n / &d;
+        let qb = if q0.is_zero() {
+            ((&n << (db + p - nb) as usize) / &d).bits() as i64
+        } else if (q0.bits() as i64) < p {
+            p
+        } else {
+            q0.bits() as i64
+        };
+        if wide_assert && nb <= p + db && qb > p {
+            return ctx.known_or_fail(out, "C06/fbig-to-float-quotient-extra-bit", detail);
         }
     }
     out.fail(detail());
@@ -1258,10 +1334,17 @@ fn fbig_to_float<R: ModeTag, const B: Word>(c: &FlCase, ctx: &Ctx) -> Out {
     if B == 2 {
         let f2: FBig<R, 2> = c.x.fbig::<R, 2>(prec);
         let r2 = f2.repr().clone();
-        judge_try_float(&mut out, "f32::try_from(FBig<R,2>)", F32, catch(|| f32::try_from(f2.clone()).map(|v| v.to_bits() as u64)), &x, true);
-        judge_try_float(&mut out, "f64::try_from(FBig<R,2>)", F64, catch(|| f64::try_from(f2.clone()).map(|v| v.to_bits())), &x, true);
-        judge_try_float(&mut out, "f32::try_from(Repr<2>)", F32, catch(|| f32::try_from(r2.clone()).map(|v| v.to_bits() as u64)), &x, true);
-        judge_try_float(&mut out, "f64::try_from(Repr<2>)", F64, catch(|| f64::try_from(r2.clone()).map(|v| v.to_bits())), &x, true);
+        let tf = |out: &mut Out, what: &str, fmt: Fmt, mode: Mode, r: Result<Result<u64, ConversionError>, String>| {
+            let (n, q) = round_to_bits(&x, fmt.p, mode);
+            let y = mul_pow2(&Q::from_integer(n), q);
+            if !accepted_through_encode(out, ctx, what, fmt, &r, &x, &y) {
+                judge_try_float(out, what, fmt, r, &x, true);
+            }
+        };
+        tf(&mut out, "f32::try_from(FBig<R,2>)", F32, R::MODE, catch(|| f32::try_from(f2.clone()).map(|v| v.to_bits() as u64)));
+        tf(&mut out, "f64::try_from(FBig<R,2>)", F64, Mode::HalfEven, catch(|| f64::try_from(f2.clone()).map(|v| v.to_bits())));
+        tf(&mut out, "f32::try_from(Repr<2>)", F32, Mode::HalfEven, catch(|| f32::try_from(r2.clone()).map(|v| v.to_bits() as u64)));
+        tf(&mut out, "f64::try_from(Repr<2>)", F64, Mode::HalfEven, catch(|| f64::try_from(r2.clone()).map(|v| v.to_bits())));
     }
     out
 }
@@ -1756,24 +1839,15 @@ fn expect_big<T>(out: &mut Out, what: &str, src: &str, r: Result<Result<T, Conve
 }
 
 /// C06/fbig-from-rbig-lossy: `impl From<RBig/Relaxed> for FBig` divides numerator by denominator
-/// at the precision of the longer operand (marked TODO(v0.5) "make this fallible" in the source)
-fn from_rational_lossy(out: &mut Out, ctx: &Ctx, what: &str, x: &Q, base: u64, got: &Q) {
-    // representable in base B <=> every prime factor of the denominator divides B
-    let mut d = x.denom().magnitude().clone();
-    let b = BigUint::from(base);
-    loop {
-        let g = d.gcd(&b);
-        if g.is_one() {
-            break;
-        }
-        while (&d % &g).is_zero() {
-            d /= &g;
-        }
-    }
-    if !d.is_one() {
+/// at the precision of the longer operand (marked TODO(v0.5) "make this fallible" in the source):
+/// every value that needs more digits than that — representable in base B or not — is rounded
+fn from_rational_lossy(out: &mut Out, ctx: &Ctx, what: &str, x: &Q, base: u64, got: &Q, parts: &(BigInt, BigUint)) {
+    // the quotient is computed at P = max(digits(numerator), digits(denominator)) digits
+    let p = digits(parts.0.magnitude(), base).max(digits(&parts.1, base)).max(1);
+    if !Truth::Val(Sci::from_rational(x, base)).representable(p) {
         ctx.known_or_fail(out, "C06/fbig-from-rbig-lossy", || format!("{what}: x = {} became {}", show_q(x), show_q(got)));
     } else {
-        out.fail(format!("{what}: x = {} (representable in base {base}) became {}", show_q(x), show_q(got)));
+        out.fail(format!("{what}: x = {} (representable in {p} digits of base {base}) became {}", show_q(x), show_q(got)));
     }
 }
 
@@ -1809,18 +1883,19 @@ fn lossless_big<R: ModeTag, const B: Word>(c: &FlCase, ctx: &Ctx) -> Out {
     let l = Relaxed::from_parts(n2i(&(&n * BigInt::from(k.clone()))), n2u(&(&d * &k)));
     expect_big(&mut out, "IBig::try_from(RBig)", &xs, catch(|| IBig::try_from(r.clone())), xi.as_ref(), |g| i2n(g));
     rbig_to_ubig(&mut out, ctx, "UBig::try_from(RBig)", &xs, catch(|| UBig::try_from(r.clone())), xu.as_ref(), &x);
-    let l1 = Relaxed::from_parts(n2i(&n), n2u(&d));
+    let l1 = Relaxed::from_parts(n2i(x.numer()), n2u(x.denom().magnitude()));
     expect_big(&mut out, "IBig::try_from(Relaxed)", &xs, catch(|| IBig::try_from(l1.clone())), xi.as_ref(), |g| i2n(g));
     rbig_to_ubig(&mut out, ctx, "UBig::try_from(Relaxed)", &xs, catch(|| UBig::try_from(l1.clone())), xu.as_ref(), &x);
     relaxed_unreduced(&mut out, ctx, "IBig::try_from(Relaxed 3n/3d)", &xs, catch(|| IBig::try_from(l.clone())), xi.as_ref());
     rat_to_prims!(out, r, l1, xs, xi; u8, u16, u32, u64, u128, usize, i8, i16, i32, i64, i128, isize);
+    let stored = (x.numer().clone(), x.denom().magnitude().clone());
     for (what, got) in [("FBig::from(RBig)", catch(|| exact_fbig(&FBig::<R, B>::from(r.clone())))), ("FBig::from(Relaxed)", catch(|| exact_fbig(&FBig::<R, B>::from(l1.clone()))))] {
         match got {
             Err(m) => out.fail(format!("{what} panicked: {} (x = {xs})", normalise(&m))),
             Ok(None) => out.fail(format!("{what}: infinite result for {xs}")),
             Ok(Some(g)) => {
                 if g != x {
-                    from_rational_lossy(&mut out, ctx, what, &x, base, &g);
+                    from_rational_lossy(&mut out, ctx, what, &x, base, &g, &stored);
                 }
             }
         }
@@ -1841,7 +1916,7 @@ fn lossless_big<R: ModeTag, const B: Word>(c: &FlCase, ctx: &Ctx) -> Out {
             expect_value(&mut out, "RBig::from(UBig)", catch(|| Some(exact_rbig(&RBig::from(ub.clone())))), &x);
             expect_value(&mut out, "Relaxed::from(UBig)", catch(|| Some(exact_relaxed(&Relaxed::from(ub.clone())))), &x);
             expect_value(&mut out, "IBig::from(UBig)", catch(|| Some(Q::from_integer(i2n(&IBig::from(ub.clone()))))), &x);
-            expect_big(&mut out, "UBig::try_from(RBig::from(UBig))", &xs, catch(|| UBig::try_from(RBig::from(ub.clone()))), Some(u), |g| BigInt::from(u2n(g)));
+            rbig_to_ubig(&mut out, ctx, "UBig::try_from(RBig::from(UBig))", &xs, catch(|| UBig::try_from(RBig::from(ub.clone()))), Some(u), &x);
         }
     }
     out
@@ -2055,6 +2130,24 @@ macro_rules! from_float_arm {
 }
 
 /// `TryFrom<RBig> for f32/f64` on a value that came from that very float type
+/// A lossy value accepted because `encode` called it Exact (C06/encode-sticky-bit-dropped):
+/// `y` is what reaches encode (x itself, or x rounded to p bits when that is exact).
+fn accepted_through_encode(out: &mut Out, ctx: &Ctx, what: &str, fmt: Fmt, r: &Result<Result<u64, ConversionError>, String>, x: &Q, y: &Q) -> bool {
+    if let Ok(Ok(bits)) = r {
+        let lossy = fmt.exact(*bits).as_ref() != Some(x);
+        let dyadic = y.denom().magnitude().count_ones() == 1;
+        if lossy && dyadic && y == x && !y.is_zero() && y.numer().magnitude().bits() <= 100 {
+            let e = -(y.denom().magnitude().bits() as i64 - 1);
+            let (mb, mo) = encode_model(y.numer().magnitude().to_u128().unwrap(), e, fmt, EncBugs { drop_bit: true, flush_binade: false });
+            if mo == Ordering::Equal && mb == (bits & (fmt.sign_mask() - 1)) && fmt.neg(*bits) == x.is_negative() {
+                ctx.known_or_fail(out, "C06/encode-sticky-bit-dropped", || format!("{what} accepted a lossy conversion: x = {} -> Ok({})", show_q(x), fmt.show(*bits)));
+                return true;
+            }
+        }
+    }
+    false
+}
+
 fn rbig_back_to_float(out: &mut Out, ctx: &Ctx, what: &str, fmt: Fmt, r: Result<Result<u64, ConversionError>, String>, x: &Q) {
     try_float_from_rat(out, ctx, what, fmt, r, x);
 }
@@ -2170,6 +2263,21 @@ fn enc_case() -> impl Strategy<Value = EncCase> {
     })
 }
 
+/// the two panics of `encode`
+fn encode_panic_id(fmt: Fmt, mag: u128, e: i64, nm: &str) -> Option<&'static str> {
+    let l = 128 - mag.leading_zeros() as i64;
+    let w = if fmt == F32 { 32 } else { 64 };
+    if mag != 0 && nm.contains("attempt to add with overflow") && nm.contains("base/src/bit.rs") && l + e > i16::MAX as i64 {
+        // C06/encode-exponent-i16-overflow: `(BITS - zeros) as i16 + exponent`
+        Some("C06/encode-exponent-i16-overflow")
+    } else if nm.contains("attempt to shift left with overflow") && nm.contains("base/src/bit.rs") && (w - 2) + (e - fmt.qmin) < 0 && l + e >= (if fmt == F32 { fmt.qmin + 1 } else { fmt.qmin }) {
+        // C06/encode-subnormal-shift-overflow: `mantissa << (BITS-2 + shift)` with shift < -(BITS-2)
+        Some("C06/encode-subnormal-shift-overflow")
+    } else {
+        None
+    }
+}
+
 /// encode(m, e) judged against RNE of m·2^e; failing observations are attributed through the
 /// integer model with one hypothesised defect switched on at a time.
 fn encode_judge(fmt: Fmt, m: i64, e: i16, got: Result<Obs, String>, ctx: &Ctx, out: &mut Out) {
@@ -2182,15 +2290,9 @@ fn encode_judge(fmt: Fmt, m: i64, e: i16, got: Result<Obs, String>, ctx: &Ctx, o
     match got {
         Err(pm) => {
             let nm = normalise(&pm);
-            let w = if fmt == F32 { 32 } else { 64 };
-            if m != 0 && nm.contains("attempt to add with overflow") && nm.contains("base/src/bit.rs") && l + e as i64 > i16::MAX as i64 {
-                // C06/encode-exponent-i16-overflow: `(BITS - zeros) as i16 + exponent`
-                ctx.known_or_fail(out, "C06/encode-exponent-i16-overflow", || format!("{what} panicked: {nm}"));
-            } else if nm.contains("attempt to shift left with overflow") && nm.contains("base/src/bit.rs") && (w - 2) + (e as i64 - fmt.qmin) < 0 && l + e as i64 >= fmt.qmin + 1 {
-                // C06/encode-subnormal-shift-overflow: `mantissa << (BITS-2 + shift)` with shift < -(BITS-2)
-                ctx.known_or_fail(out, "C06/encode-subnormal-shift-overflow", || format!("{what} panicked: {nm}"));
-            } else {
-                out.fail(format!("{what} panicked: {nm}"));
+            match encode_panic_id(fmt, mag, e as i64, &nm) {
+                Some(id) => ctx.known_or_fail(out, id, || format!("{what} panicked: {nm}")),
+                None => out.fail(format!("{what} panicked: {nm}")),
             }
         }
         Ok(o) => {
